@@ -9,6 +9,7 @@ mod gen;
 mod simalloc;
 mod zoo;
 
+#[cfg(not(miri))]
 #[global_allocator]
 static GLOBAL: simalloc::SimAlloc = simalloc::SimAlloc;
 
@@ -35,6 +36,9 @@ extern "C" {
     fn setitimer(which: i32, new_value: *const ITimerVal, old_value: *mut ITimerVal) -> i32;
 }
 const ITIMER_PROF: i32 = 2;
+#[cfg(miri)]
+fn arm_cpu_watchdog(_seconds: i64) {}
+#[cfg(not(miri))]
 fn arm_cpu_watchdog(seconds: i64) {
     let it = ITimerVal { it_interval: TimeVal { tv_sec: 0, tv_usec: 0 }, it_value: TimeVal { tv_sec: seconds, tv_usec: 0 } };
     unsafe { setitimer(ITIMER_PROF, &it, std::ptr::null_mut()) };
@@ -1204,6 +1208,109 @@ fn main() {
                     std::process::exit(3);
                 }
             }
+        }
+        "miri-plans" => {
+            // native half of the Miri pass for C06: generate damaged-image plans over the two pure-Rust containers,
+            // execute each natively, and keep those Miri can execute (no native violation - those are reported by the
+            // native check already - and no allocation request beyond a few MiB, which Miri could not survive)
+            let seed: u64 = arg(&args, "--seed").and_then(|s| s.parse().ok()).unwrap_or(simcore::DEFAULT_SEED);
+            let bases: u64 = arg(&args, "--bases").and_then(|s| s.parse().ok()).unwrap_or(16);
+            let per: u64 = arg(&args, "--per").and_then(|s| s.parse().ok()).unwrap_or(8);
+            let out = arg(&args, "--out").expect("--out");
+            let mut lines = String::new();
+            let (mut kept, mut big, mut viol, mut failed, mut ffi) = (0u64, 0u64, 0u64, 0u64, 0u64);
+            for i in 0..bases {
+                let js = mix(seed, "simio-miri-C06", i);
+                let mut rng = Rng::new(js);
+                let mut base = gen::gen_base("C06", &mut rng, true, js);
+                base.container = if i % 2 == 0 { Container::Plain } else { Container::NoSchema };
+                base.load_key = base.key;
+                base.write_buffer = 0;
+                let mut env = match prepare(&base) {
+                    Ok(e) => e,
+                    Err(_) => {
+                        failed += 1;
+                        continue;
+                    }
+                };
+                if env.ref_bytes.len() > 2500 {
+                    failed += 1;
+                    continue;
+                }
+                let lens = gen::length_like_positions(&env);
+                for k in 0..per {
+                    let mut c = base.clone();
+                    c.config = "media".into();
+                    if k % 3 == 0 && !lens.is_empty() {
+                        // an arbitrary value in the low bytes of something that looks like a length
+                        let p = *rng.pick(&lens) + rng.below(2);
+                        c.media.push(MediaOp::Set(p, rng.next_u64() as u8));
+                    } else {
+                        for _ in 0..(1 + rng.below(2)) {
+                            c.media.push(gen::media_op(&mut rng, &env, &lens));
+                        }
+                    }
+                    simalloc::MAX_REQ.store(0, std::sync::atomic::Ordering::Relaxed);
+                    arm_cpu_watchdog(EVAL_CPU_SECONDS);
+                    let r = exec_in(&c, &mut env);
+                    arm_cpu_watchdog(0);
+                    let maxreq = simalloc::MAX_REQ.load(std::sync::atomic::Ordering::Relaxed);
+                    match r {
+                        Ok(o) => {
+                            if o.judged.violation.is_some() {
+                                viol += 1;
+                            } else if maxreq >= (4 << 20) {
+                                big += 1;
+                            } else if apply_media(&env.ref_bytes, &env.gen2_bytes, &c.media).get(15).copied().unwrap_or(0) != 0 {
+                                // the damage switched the compression flag on: the load goes through libbz2 (C code),
+                                // which Miri cannot execute
+                                ffi += 1;
+                            } else {
+                                kept += 1;
+                                lines.push_str(&format!("{}\n", json!({"case": c.to_json(), "native_outcome": o.judged.outcome, "native_log_hash": format!("{:016x}", o.log_hash)})));
+                            }
+                        }
+                        Err(_) => failed += 1,
+                    }
+                }
+            }
+            std::fs::write(&out, lines).expect("write plans");
+            println!("{}", json!({"kept": kept, "skipped_big_allocation": big, "skipped_native_violation": viol, "skipped_failed": failed, "skipped_needs_libbz2": ffi}));
+        }
+        "miri-exec" => {
+            // Miri half: execute plans [from, to) of the file; undefined behaviour ends the interpreter with a report
+            // (the line "PLAN <n>" printed last on stderr names the plan); a clean pass prints a summary
+            let path = args.get(2).expect("file");
+            let from: usize = arg(&args, "--from").and_then(|s| s.parse().ok()).unwrap_or(0);
+            let to: usize = arg(&args, "--to").and_then(|s| s.parse().ok()).unwrap_or(usize::MAX);
+            let text = std::fs::read_to_string(path).expect("read plans");
+            let (mut evals, mut diverged) = (0u64, 0u64);
+            let mut outcomes = std::collections::BTreeMap::<String, u64>::new();
+            for (n, line) in text.lines().enumerate() {
+                if n < from || n >= to {
+                    continue;
+                }
+                let v: Value = serde_json::from_str(line).expect("json");
+                let case = Case::from_json(&v["case"]);
+                eprintln!("PLAN {}", n);
+                match exec(&case) {
+                    Ok(o) => {
+                        evals += 1;
+                        *outcomes.entry(o.judged.outcome.to_string()).or_insert(0) += 1;
+                        if let Some(vi) = &o.judged.violation {
+                            println!("{}", json!({"plan": n, "verdict": "violation", "oracle": vi.oracle, "detail": vi.detail}));
+                        }
+                        if format!("{:016x}", o.log_hash) != v["native_log_hash"].as_str().unwrap_or("") {
+                            diverged += 1;
+                        }
+                    }
+                    Err(e) => {
+                        eprintln!("reference failed for plan {}: {}", n, e);
+                        diverged += 1;
+                    }
+                }
+            }
+            println!("{}", json!({"summary": true, "evals": evals, "diverged_from_native": diverged, "outcomes": outcomes}));
         }
         "facts" => {
             let facts: Vec<Value> = packed_facts().iter().map(|(n, y)| json!({"type": n, "bulk_path": y})).collect();
